@@ -1,7 +1,8 @@
 --------------------------- MODULE TcpBridgeTrace ---------------------------
 (* Recorded runs of the real tcp-bridge-frontend and tcp-bridge-backend        *)
-(* binaries with harness TCP peers at both ends, judged by the stream rules    *)
-(* of TcpBridge (byte counts instead of tokens; content checked per read).     *)
+(* binaries with harness TCP peers at both ends, judged by TcpBridgeObs - the  *)
+(* observable behaviour that the bridge model TcpBridge is checked to refine   *)
+(* (byte counts; the content of every read is checked by the observer).        *)
 EXTENDS TraceCommon, FiniteSets, Integers
 
 VARIABLES sent, rcvd, closed, eof,
@@ -9,49 +10,37 @@ VARIABLES sent, rcvd, closed, eof,
           abort,   \* [c -> the first close was abortive (reset): TCP itself does not promise delivery then]
           l
 Conns == FieldSet("Open", "c")
-Dirs == {"up", "down"}
-Other(d) == IF d = "up" THEN "down" ELSE "up"
+O == INSTANCE TcpBridgeObs WITH Conn <- Conns, osent <- sent, orcvd <- rcvd, oclosed <- closed,
+                                 oeof <- eof, ofirst <- first, oabort <- abort
 Is(e) == l <= TLen /\ Trace[l].ev = e
 E == Trace[l]
 Step == l' = l + 1 /\ Mark(l)
 bv == <<sent, rcvd, closed, eof, first, abort>>
-NoAbort == [c \in Conns |-> FALSE]
-None == [c \in Conns |-> ""]
-Zero == [c \in Conns |-> [d \in Dirs |-> 0]]
-No == [c \in Conns |-> [d \in Dirs |-> FALSE]]
 
-TInit == sent = Zero /\ rcvd = Zero /\ closed = No /\ eof = No /\ first = None /\ abort = NoAbort /\ l = 1 /\ HWMInit
-TReset == Is("Reset") /\ sent' = Zero /\ rcvd' = Zero /\ closed' = No /\ eof' = No /\ first' = None /\ abort' = NoAbort
+TInit == O!OInit /\ l = 1 /\ HWMInit
+TReset == Is("Reset") /\ sent' = [c \in Conns |-> [d \in O!Dirs |-> 0]] /\ rcvd' = sent'
+               /\ closed' = [c \in Conns |-> [d \in O!Dirs |-> FALSE]] /\ eof' = closed'
+               /\ first' = [c \in Conns |-> ""] /\ abort' = [c \in Conns |-> FALSE]
                /\ Step
 TOpen == Is("Open") /\ UNCHANGED bv
                /\ Step
 \* the source peer of direction d is about to write n bytes
-TWr == Is("Wr") /\ ~closed[E.c][E.d] /\ sent' = [sent EXCEPT ![E.c][E.d] = @ + E.n] /\ UNCHANGED <<rcvd, closed, eof, first, abort>>
+TWr == Is("Wr") /\ O!OWr(E.c, E.d, E.n)
                /\ Step
-\* the far peer read n bytes: the next n bytes of the stream, unmodified, never more than was written
-TRd == Is("Rd") /\ E.ok /\ rcvd[E.c][E.d] + E.n <= sent[E.c][E.d]
-       /\ rcvd' = [rcvd EXCEPT ![E.c][E.d] = @ + E.n] /\ UNCHANGED <<sent, closed, eof, first, abort>>
+\* the far peer read n bytes: the next n bytes of the stream, unmodified (E.ok), never more than was written
+TRd == Is("Rd") /\ E.ok /\ O!ORd(E.c, E.d, E.n)
                /\ Step
-TPeerClose == Is("PeerClose") /\ closed' = [closed EXCEPT ![E.c][E.d] = TRUE]
-              /\ first' = [first EXCEPT ![E.c] = IF @ = "" THEN E.d ELSE @]
-              /\ abort' = [abort EXCEPT ![E.c] = IF first[E.c] = "" THEN E.abortive ELSE @] /\ UNCHANGED <<sent, rcvd, eof>>
+TPeerClose == Is("PeerClose") /\ O!OClose(E.c, E.d, E.abortive)
                /\ Step
-\* the far peer of direction d observed end-of-stream: only after somebody closed, and if the source
-\* of this direction was the (first) peer to close, only after everything it had sent was received.
-\* (Data still travelling TOWARDS a peer that has closed is not covered by the property.)
-TPeerEOF == Is("PeerEOF") /\ (closed[E.c][E.d] \/ closed[E.c][Other(E.d)])
-            /\ ((first[E.c] = E.d /\ ~abort[E.c]) => rcvd[E.c][E.d] = sent[E.c][E.d]) /\ E.total = rcvd[E.c][E.d]
-            /\ eof' = [eof EXCEPT ![E.c][E.d] = TRUE] /\ UNCHANGED <<sent, rcvd, closed, first, abort>>
+\* the far peer of direction d observed end-of-stream, having read E.total bytes
+TPeerEOF == Is("PeerEOF") /\ E.total = rcvd[E.c][E.d] /\ O!OEof(E.c, E.d)
                /\ Step
 \* a plain HTTP request sent to the bridge backend reached the backend port unchanged and its answer came back
 THttp == Is("Http") /\ E.ok /\ UNCHANGED bv
                /\ Step
 \* end of the scenario: every close was propagated, every stream is complete where nobody closed,
 \* and the bridge holds no connection to the TCP server any more once all clients are gone
-TFinal == Is("Final") /\ UNCHANGED bv
-          /\ (E.judge_close => \A c \in Conns : \A d \in Dirs : first[c] = d => eof[c][d])
-          /\ (\A c \in Conns : \A d \in Dirs : ((first[c] = "" \/ first[c] = d) /\ ~abort[c]) => rcvd[c][d] = sent[c][d])
-          /\ (E.judge_close => E.server_open = 0)
+TFinal == Is("Final") /\ UNCHANGED bv /\ O!Settled(E.judge_close, E.server_open)
                /\ Step
 TNext == TReset \/ TOpen \/ TWr \/ TRd \/ TPeerClose \/ TPeerEOF \/ THttp \/ TFinal
 TSpec == TInit /\ [][TNext]_<<bv, l>>
